@@ -111,11 +111,18 @@ _c("C07",
    "truncation_unique_partial, truncation_perm_equivariant_partial. Known findings: D7 (SUS pointer count, C17's), D20 (integer remainder drawn from repeated options: shares off by up to d_i), "
    "D21 (UC integer problem bounds raise for ncross >= 2).")
 _c("C18",
-   "31 theorems (Props/C18.lean): block counts per chromosome are >= 1 and sum to the request for any positions; every marker gets one label, labels are monotone along the genome and chromosome ranges are disjoint; haplobin_bounds is the run-length "
-   "partition of [0,p); #blocks <= requested with equality exactly when every equal-width bin holds a marker; block values over the produced blocks sum to the copy's total additive value for every trait; OHV = ploidy * sum of per-block best candidates, "
-   ">= every doubled haploid that recombines only at block boundaries, and attained; OPV definition; monotone in the parent set. A model of the proposed repair is proved to meet the full statement (patched_uses_requested_total).",
-   "numpy linspace/argmin as modelled; labels compared with the model run on numpy's own float boundaries. Partial: uses_requested_total_partial, hmat_fibre_conserved_partial, haplomat_finite_partial (all need 'every equal-width bin filled'). "
-   "Known finding D10: an empty equal-width bin gives fewer blocks than requested and uninitialised (numpy.empty) block columns (counterexamples proved).")
+   "66 theorems (Props/C18.lean) about the model of the code WITH the repair of D10: block counts per chromosome are >= 1 and sum to the request for any positions "
+   "and any request, never exceed the chromosome's marker count for totals up to the marker count (greedy loop incl. the literal numpy.where(full, inf, diff).argmin() "
+   "= closed form); every marker gets one label, labels monotone, chromosome ranges disjoint, every label used; haplobin_bounds is the run-length partition of [0,p); "
+   "FULL uses_requested_total: every valid layout (clustered positions, boundary ties; exact or any admissibly rounded linspace) and every total between chromosome "
+   "count and marker count gives exactly n blocks, chromosome i exactly nblk[i], refusals exactly outside that range; all n block columns written and summing to g.u "
+   "(hmat_fibre_conserved, haplomat_finite); OHV = ploidy * sum of per-block best candidates >= every block-boundary doubled haploid (any ploidy, sign, all traits), "
+   "attained, monotone in / dependent only on the parent set; cross map = exactly the increasing parent tuples; chunk loop = row-wise for every mem; OPV / OHV latent "
+   "(subset, weighted) / GB definitions; spec_sound for every clause incl. total, spec_iff for structural and value clauses.",
+   "numpy linspace / argmin / unique / dot as modelled (layout executed at Float bit for bit and compared on every case; rounding contract RoundOK / ChromRoundOK "
+   "derived from a relative-error model). No partial theorem. The code before the repair is kept as ...Prerepair with empty_bin_ / boundary_marker_ / "
+   "guard_refusal_prerepair_counterexample and its exact characterisation (fewer_blocks_iff_empty_bin_prerepair, unwritten_columns_prerepair). "
+   "No open finding (D10 fixed in /repo).")
 _c("C09",
    "29 theorems (Props/C09.lean) over any ordered field, all matrices/sizes/ploidies: every statistic equals its textbook definition on the raw calls; afreq in [0,1] and exactly 0/1 iff all copies equal; afixed = not apoly (both classes); ploidy+1 genotype classes "
    "summing to ntaxa; all 13 outputs of a phased matrix equal those of its projection; div_form_exact: for ANY monotone rounding fixing 0,1,e,1-e, rnd(c/m) is 1 iff c=m and 0 iff c=0 (m*e <= 1), lifted through afreq/afixed/apoly and dtype casts.",
